@@ -2,7 +2,7 @@ SPEC = {
     'id': 'C29',
     'harness': 'hC29',
     'coq_dir': 'C29',
-    'claimed': False,
+    'claimed': True,
     'theorems': ['C29_crash_consistent_partial', 'C29_resume_same_final_partial',
                  'C29_history_crash_consistent_partial', 'C29_history_resume_partial',
                  'C29_redeliver_same_final_partial', 'C29_example_history', 'C29_split_batch_unsafe'],
